@@ -5,6 +5,12 @@ pub type Body = fn(&mut ReplaySource);
 
 pub fn bodies() -> Vec<(&'static str, Body)> {
     vec![
+        ("ev_if_0", crate::c08_steps::ev_if_0::<ReplaySource> as Body),
+        ("ev_if_1", crate::c08_steps::ev_if_1::<ReplaySource> as Body),
+        ("ev_if_2", crate::c08_steps::ev_if_2::<ReplaySource> as Body),
+        ("se_if_0", crate::c08_steps::se_if_0::<ReplaySource> as Body),
+        ("se_if_1", crate::c08_steps::se_if_1::<ReplaySource> as Body),
+        ("se_if_2", crate::c08_steps::se_if_2::<ReplaySource> as Body),
         ("c20_rule_apply0_skip0", crate::c20_filters::c20_rule_apply0_skip0::<ReplaySource> as Body),
         ("c20_config_apply0_skip0", crate::c20_filters::c20_config_apply0_skip0::<ReplaySource> as Body),
         ("c20_rule_apply1_skip0", crate::c20_filters::c20_rule_apply1_skip0::<ReplaySource> as Body),
